@@ -1,11 +1,408 @@
-//! The C library as a node (c/blake3.c + dispatcher + kernels).
+//! The C library as a node: c/blake3.c + dispatcher + all kernels, built twice
+//! by build.rs (ca_ = assembly kernels, ci_ = C intrinsics kernels) and driven
+//! only through the public blake3_hasher_* functions.
 
 use crate::exec::*;
+use crate::model::MMode;
+use crate::ops::{ctx_string, d, first_diff, hx, key32};
 use crate::plan::*;
+use crate::rng::Fnv;
+use crate::sched;
+use std::os::raw::{c_char, c_int, c_void};
+use std::sync::atomic::AtomicUsize;
 use std::sync::Arc;
 
-pub struct CSlot {}
+#[repr(C)]
+#[derive(Clone, Copy)]
+pub struct ChunkStateC {
+    pub cv: [u32; 8],
+    pub chunk_counter: u64,
+    pub buf: [u8; 64],
+    pub buf_len: u8,
+    pub blocks_compressed: u8,
+    pub flags: u8,
+}
 
-pub fn do_cop(_sh: &Arc<Shared>, _local: &mut TaskLocal, _op: &Op) -> OpResult {
-    Err(OpErr::Skip)
+#[repr(C)]
+#[derive(Clone, Copy)]
+pub struct HasherC {
+    pub key: [u32; 8],
+    pub chunk: ChunkStateC,
+    pub cv_stack_len: u8,
+    pub cv_stack: [u8; 55 * 32],
+}
+
+pub const C_UNDEFINED: c_int = 1 << 30;
+pub const C_ALL: c_int = 0x7f;
+
+macro_rules! flavour {
+    ($modname:ident, $pfx:literal) => {
+        pub mod $modname {
+            use super::*;
+            extern "C" {
+                #[link_name = concat!($pfx, "_blake3_hasher_init")]
+                pub fn init(h: *mut HasherC);
+                #[link_name = concat!($pfx, "_blake3_hasher_init_keyed")]
+                pub fn init_keyed(h: *mut HasherC, key: *const u8);
+                #[link_name = concat!($pfx, "_blake3_hasher_init_derive_key")]
+                pub fn init_derive_key(h: *mut HasherC, ctx: *const c_char);
+                #[link_name = concat!($pfx, "_blake3_hasher_init_derive_key_raw")]
+                pub fn init_derive_key_raw(h: *mut HasherC, ctx: *const c_void, len: usize);
+                #[link_name = concat!($pfx, "_blake3_hasher_update")]
+                pub fn update(h: *mut HasherC, input: *const c_void, len: usize);
+                #[link_name = concat!($pfx, "_blake3_hasher_update_tbb")]
+                pub fn update_tbb(h: *mut HasherC, input: *const c_void, len: usize);
+                #[link_name = concat!($pfx, "_blake3_hasher_finalize")]
+                pub fn finalize(h: *const HasherC, out: *mut u8, out_len: usize);
+                #[link_name = concat!($pfx, "_blake3_hasher_finalize_seek")]
+                pub fn finalize_seek(h: *const HasherC, seek: u64, out: *mut u8, out_len: usize);
+                #[link_name = concat!($pfx, "_blake3_hasher_reset")]
+                pub fn reset(h: *mut HasherC);
+                #[link_name = concat!($pfx, "_blake3_compress_subtree_wide")]
+                pub fn compress_subtree_wide(input: *const u8, len: usize, key: *const u32, counter: u64, flags: u8, out: *mut u8, use_tbb: bool) -> usize;
+                #[link_name = concat!($pfx, "_g_cpu_features")]
+                pub static mut g_cpu_features: c_int;
+                #[link_name = concat!($pfx, "_get_cpu_features")]
+                pub fn get_cpu_features() -> c_int;
+                #[link_name = concat!($pfx, "_blake3_verif_yield_hook")]
+                pub static mut yield_hook: Option<extern "C" fn(c_int)>;
+            }
+        }
+    };
+}
+flavour!(ca, "ca");
+flavour!(ci, "ci");
+
+struct SendPtr<T>(T);
+unsafe impl<T> Send for SendPtr<T> {}
+
+macro_rules! tbb_seam {
+    ($name:ident, $m:ident) => {
+        /// The TBB link seam (blake3_compress_subtree_wide_join_tbb), implemented by the simulator.
+        #[no_mangle]
+        pub unsafe extern "C" fn $name(
+            key: *const u32,
+            flags: u8,
+            use_tbb: bool,
+            l_input: *const u8,
+            l_len: usize,
+            l_counter: u64,
+            l_cvs: *mut u8,
+            l_n: *mut usize,
+            r_input: *const u8,
+            r_len: usize,
+            r_counter: u64,
+            r_cvs: *mut u8,
+            r_n: *mut usize,
+        ) {
+            let l = SendPtr((key, l_input, l_cvs, l_n));
+            let r = SendPtr((key, r_input, r_cvs, r_n));
+            let mut left = move || {
+                let l = &l;
+                unsafe { *l.0 .3 = $m::compress_subtree_wide(l.0 .1, l_len, l.0 .0, l_counter, flags, l.0 .2, use_tbb) };
+            };
+            let mut right = move || {
+                let r = &r;
+                unsafe { *r.0 .3 = $m::compress_subtree_wide(r.0 .1, r_len, r.0 .0, r_counter, flags, r.0 .2, use_tbb) };
+            };
+            if !use_tbb {
+                left();
+                right();
+            } else {
+                run_split(&mut left, &mut right);
+            }
+        }
+    };
+}
+tbb_seam!(ca_blake3_compress_subtree_wide_join_tbb, ca);
+tbb_seam!(ci_blake3_compress_subtree_wide_join_tbb, ci);
+
+extern "C" fn c_yield(site: c_int) {
+    sched::hook_yield(site as u32);
+}
+
+static DETECTED: std::sync::OnceLock<c_int> = std::sync::OnceLock::new();
+
+/// real CPU feature mask as the C dispatcher detects it
+pub fn detected_mask() -> c_int {
+    *DETECTED.get_or_init(|| unsafe {
+        let saved = std::ptr::read_volatile(&raw const ca::g_cpu_features);
+        std::ptr::write_volatile(&raw mut ca::g_cpu_features, C_UNDEFINED);
+        let m = ca::get_cpu_features();
+        std::ptr::write_volatile(&raw mut ca::g_cpu_features, saved);
+        m
+    })
+}
+
+pub fn install_c_hooks() {
+    unsafe {
+        std::ptr::write_volatile(&raw mut ca::yield_hook, Some(c_yield));
+        std::ptr::write_volatile(&raw mut ci::yield_hook, Some(c_yield));
+    }
+    let _ = detected_mask();
+}
+
+pub fn set_mask(mask: c_int) {
+    unsafe {
+        std::ptr::write_volatile(&raw mut ca::g_cpu_features, mask);
+        std::ptr::write_volatile(&raw mut ci::g_cpu_features, mask);
+    }
+}
+
+pub fn current_masks() -> (c_int, c_int) {
+    unsafe { (std::ptr::read_volatile(&raw const ca::g_cpu_features), std::ptr::read_volatile(&raw const ci::g_cpu_features)) }
+}
+
+pub struct CSlot {
+    pub h: Box<HasherC>,
+    pub flavour: u8,
+    pub mode: MMode,
+    pub absorbed: Vec<u8>,
+}
+
+fn hasher_bytes(h: &HasherC) -> Vec<u8> {
+    // only the defined fields (padding excluded): key, chunk fields, stack length, live stack entries
+    let mut v = Vec::with_capacity(200);
+    for w in h.key.iter().chain(h.chunk.cv.iter()) {
+        v.extend_from_slice(&w.to_le_bytes());
+    }
+    v.extend_from_slice(&h.chunk.chunk_counter.to_le_bytes());
+    v.extend_from_slice(&h.chunk.buf);
+    v.push(h.chunk.buf_len);
+    v.push(h.chunk.blocks_compressed);
+    v.push(h.chunk.flags);
+    v.push(h.cv_stack_len);
+    v.extend_from_slice(&h.cv_stack[..(h.cv_stack_len as usize).min(55) * 32]);
+    v
+}
+
+fn zeroed() -> Box<HasherC> {
+    // 0xEE fill: a field the initialiser forgets stays visibly uninitialised
+    let mut b: Box<HasherC> = unsafe { Box::new(std::mem::zeroed()) };
+    unsafe { std::ptr::write_bytes(&mut *b as *mut HasherC as *mut u8, 0xEE, std::mem::size_of::<HasherC>()) };
+    b
+}
+
+unsafe fn c_init(fl: u8, h: *mut HasherC, m: &MMode, raw: bool) -> bool {
+    match (fl, m) {
+        (0, MMode::Hash) => ca::init(h),
+        (_, MMode::Hash) => ci::init(h),
+        (0, MMode::Keyed(k)) => ca::init_keyed(h, k.as_ptr()),
+        (_, MMode::Keyed(k)) => ci::init_keyed(h, k.as_ptr()),
+        (f, MMode::Derive(c)) => {
+            if raw || c.contains(&0) {
+                // any bytes, embedded NUL included; a dangling pointer for an empty context
+                let p = if c.is_empty() { std::ptr::NonNull::<u8>::dangling().as_ptr() as *const c_void } else { c.as_ptr() as *const c_void };
+                if f == 0 {
+                    ca::init_derive_key_raw(h, p, c.len())
+                } else {
+                    ci::init_derive_key_raw(h, p, c.len())
+                }
+            } else {
+                let cs = std::ffi::CString::new(c.clone()).unwrap();
+                if f == 0 {
+                    ca::init_derive_key(h, cs.as_ptr())
+                } else {
+                    ci::init_derive_key(h, cs.as_ptr())
+                }
+            }
+        }
+        (_, MMode::ContextKey(_)) => return false,
+    }
+    true
+}
+
+macro_rules! get {
+    ($local:expr, $slot:expr) => {
+        match $local.slots.get_mut(&$slot) {
+            Some(Slot::C(x)) => x,
+            _ => return Err(OpErr::Skip),
+        }
+    };
+}
+
+pub fn do_cop(sh: &Arc<Shared>, local: &mut TaskLocal, op: &Op) -> OpResult {
+    match op {
+        Op::CSetMask { mask } => {
+            let det = detected_mask();
+            let m = if *mask == u32::MAX { C_UNDEFINED } else { (*mask as c_int) & det };
+            set_mask(m);
+            if m == C_UNDEFINED {
+                sh.probe("c_feature_cache_undefined_at_start");
+            } else if m != det {
+                sh.probe("c_feature_mask_restricted");
+            }
+            if m != C_UNDEFINED && (m & 0x40) != 0 && (m & 0x20) == 0 {
+                sh.probe("c_mask_avx512vl_without_f");
+            }
+            Ok(m as u64)
+        }
+        Op::CInit { slot, flavour, mode, raw } => {
+            let m = match mode {
+                Mode::Hash => MMode::Hash,
+                Mode::Keyed { key } => MMode::Keyed(key32(sh, *key)?),
+                Mode::Derive { ctx } | Mode::ContextKey { ctx } => MMode::Derive(ctx_string(sh, *ctx)?.into_bytes()),
+            };
+            let fl = *flavour % 2;
+            let mut h = zeroed();
+            if !unsafe { c_init(fl, &mut *h, &m, *raw) } {
+                return Err(OpErr::Skip);
+            }
+            // the two derive-key initialisers agree (NUL-free contexts only: a C string cannot hold NUL)
+            if let MMode::Derive(c) = &m {
+                if !c.contains(&0) {
+                    let mut h2 = zeroed();
+                    unsafe { c_init(fl, &mut *h2, &m, !*raw) };
+                    if hasher_bytes(&h) != hasher_bytes(&h2) {
+                        return viol("state-diverged", "init_derive_key and init_derive_key_raw leave different states".into());
+                    }
+                }
+                if c.len() > 1024 {
+                    sh.probe("c_context_longer_than_a_chunk");
+                }
+            }
+            let det = hasher_bytes(&h);
+            if det.len() != 32 + 32 + 8 + 64 + 4 || h.cv_stack_len != 0 || h.chunk.buf_len != 0 || h.chunk.blocks_compressed != 0 || h.chunk.chunk_counter != 0 || h.chunk.buf != [0u8; 64] {
+                return viol("state-diverged", "freshly initialised blake3_hasher has non-initial fields".into());
+            }
+            local.slots.insert(*slot, Slot::C(Box::new(CSlot { h, flavour: fl, mode: m, absorbed: Vec::new() })));
+            Ok(Fnv::of(&det))
+        }
+        Op::CUpdate { c, data, off, len, tbb } => {
+            let bytes = d(sh, *data, *off, *len)?;
+            let cs = get!(local, *c);
+            let before = if bytes.is_empty() { Some(hasher_bytes(&cs.h)) } else { None };
+            let p = if bytes.is_empty() { std::ptr::NonNull::<u8>::dangling().as_ptr() as *const c_void } else { bytes.as_ptr() as *const c_void };
+            let hp: *mut HasherC = &mut *cs.h;
+            match tbb {
+                None => unsafe {
+                    if cs.flavour == 0 {
+                        ca::update(hp, p, bytes.len())
+                    } else {
+                        ci::update(hp, p, bytes.len())
+                    }
+                },
+                Some(policy) => {
+                    set_joinctl(Some(JoinCtl {
+                        policy: policy.clone(),
+                        counter: Arc::new(AtomicUsize::new(0)),
+                        width: sh.plan.cfg.pool_width.max(1) as usize,
+                        shared: sh.clone(),
+                    }));
+                    unsafe {
+                        if cs.flavour == 0 {
+                            ca::update_tbb(hp, p, bytes.len())
+                        } else {
+                            ci::update_tbb(hp, p, bytes.len())
+                        }
+                    }
+                    set_joinctl(None);
+                    sh.probe("c_update_tbb");
+                }
+            }
+            if let Some(b) = before {
+                if hasher_bytes(&cs.h) != b {
+                    return viol("state-diverged", "zero-length blake3_hasher_update changed the hasher".into());
+                }
+                sh.probe("c_zero_length_update_dangling_ptr");
+            }
+            cs.absorbed.extend_from_slice(bytes);
+            sh.stats.lock().unwrap().bytes += bytes.len() as u64;
+            let mut f = Fnv::default();
+            f.u64(cs.absorbed.len() as u64);
+            sh.shape(Fnv::of(&[cs.flavour, (cs.absorbed.len() % 1024 != 0) as u8, ((cs.absorbed.len() / 1024) as u64).count_ones() as u8, tbb.is_some() as u8, 77]));
+            Ok(f.0)
+        }
+        Op::CFinalize { c, seek, out_len } => {
+            let cs = get!(local, *c);
+            let n = *out_len;
+            let pos = seek.unwrap_or(0);
+            if (pos as u128) + (n as u128) > u64::MAX as u128 {
+                return Err(OpErr::Skip);
+            }
+            let before = hasher_bytes(&cs.h);
+            // canaries on both sides: exactly out_len bytes may be written
+            const CAN: usize = 64;
+            let mut buf = vec![0xC7u8; n + 2 * CAN];
+            let outp = if n == 0 { std::ptr::NonNull::<u8>::dangling().as_ptr() } else { unsafe { buf.as_mut_ptr().add(CAN) } };
+            let hp: *const HasherC = &*cs.h;
+            unsafe {
+                match (cs.flavour, seek) {
+                    (0, None) => ca::finalize(hp, outp, n),
+                    (_, None) => ci::finalize(hp, outp, n),
+                    (0, Some(s)) => ca::finalize_seek(hp, *s, outp, n),
+                    (_, Some(s)) => ci::finalize_seek(hp, *s, outp, n),
+                }
+            }
+            if buf[..CAN].iter().any(|b| *b != 0xC7) || buf[CAN + n..].iter().any(|b| *b != 0xC7) {
+                return viol("canary", format!("finalize wrote outside its {n}-byte output buffer"));
+            }
+            if hasher_bytes(&cs.h) != before {
+                return viol("state-diverged", "blake3_hasher_finalize changed the hasher".into());
+            }
+            let got = &buf[CAN..CAN + n];
+            let want = cs.mode.root(&cs.absorbed).stream(pos, n);
+            if got != &want[..] {
+                let i = first_diff(got, &want);
+                return viol(
+                    "result-mismatch",
+                    format!("C output differs from spec at byte {i} of {n} (seek {pos}, {} bytes absorbed, flavour {}): got {} want {}", cs.absorbed.len(), cs.flavour, hx(&got[i..]), hx(&want[i..])),
+                );
+            }
+            // ... and the Rust crate on the same history
+            if let MMode::Derive(c) = &cs.mode {
+                if std::str::from_utf8(c).is_err() {
+                    return Ok(Fnv::of(got));
+                }
+            }
+            let tw = crate::ops::twin_xof(&cs.mode, &cs.absorbed, pos, n);
+            if got != &tw[..] {
+                let i = first_diff(got, &tw);
+                return viol("result-mismatch", format!("C output differs from the Rust crate at byte {i} (seek {pos}, n {n})"));
+            }
+            if n == 0 {
+                sh.probe("c_zero_length_output");
+            }
+            if pos / 64 >= 1 << 32 {
+                sh.probe("c_seek_counter_above_2^32");
+            }
+            if n > 0 && pos / 64 < (1 << 32) && (pos + n as u64 - 1) / 64 >= (1 << 32) {
+                sh.probe("c_output_crosses_counter_2^32");
+            }
+            if pos % 64 != 0 && n > 128 {
+                sh.probe("c_unaligned_seek_multi_block");
+            }
+            sh.shape(Fnv::of(&[cs.flavour, (pos % 64 != 0) as u8, (n as u64).min(200) as u8 / 32, (pos / 64 >= 1 << 32) as u8, 78]));
+            Ok(Fnv::of(got))
+        }
+        Op::CReset { c } => {
+            let cs = get!(local, *c);
+            let hp: *mut HasherC = &mut *cs.h;
+            unsafe {
+                if cs.flavour == 0 {
+                    ca::reset(hp)
+                } else {
+                    ci::reset(hp)
+                }
+            }
+            let mut fresh = zeroed();
+            unsafe { c_init(cs.flavour, &mut *fresh, &cs.mode, true) };
+            if hasher_bytes(&cs.h) != hasher_bytes(&fresh) {
+                return viol("state-diverged", "blake3_hasher_reset does not restore the freshly initialised state".into());
+            }
+            if cs.absorbed.len() % 64 != 0 {
+                sh.probe("c_reset_with_partial_block");
+            }
+            cs.absorbed.clear();
+            Ok(0x5e5e7)
+        }
+        Op::CCopy { c, new } => {
+            let cs = get!(local, *c);
+            // struct copy: how C callers clone a hasher
+            let copy = CSlot { h: Box::new(*cs.h), flavour: cs.flavour, mode: cs.mode.clone(), absorbed: cs.absorbed.clone() };
+            local.slots.insert(*new, Slot::C(Box::new(copy)));
+            Ok(0xc0b7)
+        }
+        _ => Err(OpErr::Skip),
+    }
 }
